@@ -312,6 +312,10 @@ class ResizingOperator(Operator):
                 raise ValueError('either `ran` or `ran_shp` must be '
                                  'given')
 
+            if len(ran_shp) != domain.ndim:
+                raise ValueError('`ran_shp` must have length {}, got {}'
+                                 ''.format(domain.ndim, len(ran_shp)))
+
             offset = normalized_scalar_param_list(
                 offset, domain.ndim, param_conv=safe_int_conv, keep_none=True)
 
@@ -322,6 +326,13 @@ class ResizingOperator(Operator):
             if offset is not None:
                 raise ValueError('`offset` can only be combined with '
                                  '`ran_shp`')
+
+            if not isinstance(ran, DiscretizedSpace):
+                raise TypeError('`range` must be a `DiscretizedSpace` '
+                                'instance, got {!r}'.format(ran))
+            if ran.ndim != domain.ndim:
+                raise ValueError('`range` must have {} axes like `domain`, '
+                                 'got {}'.format(domain.ndim, ran.ndim))
 
             for i in range(domain.ndim):
                 if (ran.is_uniform_byaxis[i] and
